@@ -117,12 +117,15 @@ Theorem C16_bandwidths_from_spread numerical c factor stds :
 Proof. exact (bandwidths_from_spread numerical c factor stds). Qed.
 Print Assumptions C16_bandwidths_from_spread.
 
-(* Search variant: when more observations satisfy the thresholds (strictly below every non-NaN scaled upper threshold)
-   than the space has dimensions, lower = exactly the satisfiers, greater = exactly the violators, and
-   gamma = #violators / n lies in [0, 1) and is 0 exactly when nothing violates; otherwise the constructor's split stays. *)
+(* Search variant (form_sigopt_parzen_estimator_for_search after the repair "fix: SPE search forces the threshold split only
+   when some observation violates a threshold").  Membership clause, in full: whenever at least one observation violates a
+   threshold (is not strictly below some non-NaN scaled upper threshold) and more observations satisfy the thresholds than the
+   space has dimensions, lower = exactly the satisfiers, greater = exactly the violators, both non-empty, and
+   gamma = #violators / n lies in (0, 1). *)
 Theorem C16_search_split dim (pts : list point) thr pf dflt :
   length pf = length pts ->
   let viol := violations thr pf in
+  (0 < count_true viol)%nat ->
   (dim < length pts - count_true viol)%nat ->
   exists lower greater gamma,
     search_split dim pts viol dflt = (lower, greater, gamma) /\
@@ -131,38 +134,78 @@ Theorem C16_search_split dim (pts : list point) thr pf dflt :
     (forall x, In x lower <-> exists i, (i < length pts)%nat /\ within thr (nth i pf []) = true /\ nth i pts [] = x) /\
     (forall x, In x greater <-> exists i, (i < length pts)%nat /\ within thr (nth i pf []) = false /\ nth i pts [] = x) /\
     gamma == inject_Z (Z.of_nat (count_true viol)) / inject_Z (Z.of_nat (length pts)) /\
-    0 <= gamma /\ gamma < 1 /\ (gamma == 0 <-> greater = []).
+    0 < gamma /\ gamma < 1 /\ lower <> [] /\ greater <> [].
 Proof. exact (search_split_spec dim pts thr pf dflt). Qed.
 Print Assumptions C16_search_split.
 
+(* Otherwise - no violator at all, or the satisfiers do not outnumber the dimension - the constructor's split and gamma stay. *)
 Theorem C16_search_split_default dim (pts : list point) viol dflt :
-  ~ (dim < length pts - count_true viol)%nat -> search_split dim pts viol dflt = dflt.
+  (count_true viol = 0 \/ ~ (dim < length pts - count_true viol))%nat -> search_split dim pts viol dflt = dflt.
 Proof. exact (search_split_default dim pts viol dflt). Qed.
 Print Assumptions C16_search_split_default.
 
-(* The search estimator satisfies the ratio clause whenever at least one observation violates a threshold. *)
-Theorem C16_search_ratio_clause_partial dim (pts : list point) thr pf dflt lower greater gamma :
+(* The threshold split, whenever it is forced, satisfies the ratio clause. *)
+Theorem C16_search_ratio_clause_forced dim (pts : list point) thr pf dflt lower greater gamma :
   length pf = length pts ->
-  (dim < length pts - count_true (violations thr pf))%nat ->
   (0 < count_true (violations thr pf))%nat ->
+  (dim < length pts - count_true (violations thr pf))%nat ->
   search_split dim pts (violations thr pf) dflt = (lower, greater, gamma) ->
   0 < gamma /\ gamma < 1 /\ ratio_clause gamma lower greater.
-Proof. exact (search_ratio_clause_with_violator dim pts thr pf dflt lower greater gamma). Qed.
-Print Assumptions C16_search_ratio_clause_partial.
-(* Full statement (no `0 < count_true` hypothesis) is FALSE of the faithful model and of the code: see
-   C16_search_ratio_refuted below (known finding C16:spe-search-no-violators-gamma-zero). *)
+Proof. exact (search_ratio_clause_forced dim pts thr pf dflt lower greater gamma). Qed.
+Print Assumptions C16_search_ratio_clause_forced.
 
-(* With no violator the search variant sets gamma = 0 and an empty greater set: its density is NaN and the ratio clause
-   fails (ten 1-d observations 0..9, threshold 100). *)
-Theorem C16_search_ratio_refuted :
-  exists gamma0 dim pts vals perm thr pf lower greater gamma,
-    0 < gamma0 /\ gamma0 < 1 /\ length vals = length pts /\ length pf = length pts /\
-    sorting_perm_b vals perm = true /\
-    (dim < length pts - count_true (violations thr pf))%nat /\
-    search_model gamma0 dim pts vals perm thr pf = Ok (lower, greater, gamma) /\
-    gamma == 0 /\ greater = [] /\ ~ ratio_clause gamma lower greater.
-Proof. exact search_ratio_refuted. Qed.
-Print Assumptions C16_search_ratio_refuted.
+(* Companion, NO VIOLATOR.  With no violator the property's membership clause cannot hold literally: "lower = all satisfiers,
+   greater = the violators" would make the greater set empty, and an empty set has no density (the mean over an empty axis is
+   NaN; `expected_improvement gamma klow [] = None` in the model), so the density and ratio clauses of the same property would
+   fail - this is what the code did before the repair (gamma = 0, NaN ratio, the endpoint died with an AssertionError).  The
+   reading of DESIGN 11.5 therefore restricts the membership clause to requests with at least one violator, and the repaired
+   view keeps the constructor's estimator here: gamma stays gamma0 (the view passes 0.2), the lower set holds the
+   s = max(floor(gamma0 n), 3) observations with the lowest values of the chosen constraint metric, the greater set the
+   n - s >= 1 others (for every permutation numpy.argsort may return), both densities are defined and the ratio lies in
+   (0, 1/gamma0]. *)
+Theorem C16_search_no_violator gamma0 dim pts vals perm thr pf lower greater gamma :
+  0 < gamma0 -> gamma0 < 1 -> length vals = length pts ->
+  count_true (violations thr pf) = 0%nat ->
+  sorting_perm_b vals perm = true ->
+  search_model gamma0 dim pts vals perm thr pf = Ok (lower, greater, gamma) ->
+  gamma = gamma0 /\
+  exists lo gr, form_model gamma0 0 pts vals perm = Ok (lo, gr) /\ lower = map fst lo /\ greater = map fst gr /\
+    let n := length pts in
+    let s := Z.to_nat (lower_size gamma0 (Z.of_nat n)) in
+    Z.of_nat s = Z.max (Qfloor (inject_Z (Z.of_nat n) * gamma0)) 3 /\
+    length lower = s /\ length greater = (n - s)%nat /\ (3 <= s)%nat /\ (s < n)%nat /\ (10 <= n)%nat /\
+    Permutation (lo ++ gr) (combine pts vals) /\
+    (forall a b, In a lo -> In b gr -> snd a <= snd b) /\
+    ratio_clause gamma lower greater.
+Proof. exact (search_model_no_violator gamma0 dim pts vals perm thr pf lower greater gamma). Qed.
+Print Assumptions C16_search_no_violator.
+
+(* Hence EVERY estimator the search view builds (threshold split or constructor's split; any thresholds, NaN thresholds
+   included; any sorting permutation) has gamma in (0, 1), two non-empty sets, and satisfies the whole ratio clause: no
+   hypothesis about violators is left (before the repair this was `_partial`, with a `_refuted` sibling for gamma = 0). *)
+Theorem C16_search_ratio_clause gamma0 dim pts vals perm thr pf lower greater gamma :
+  0 < gamma0 -> gamma0 < 1 -> length vals = length pts -> length pf = length pts ->
+  sorting_perm_b vals perm = true ->
+  search_model gamma0 dim pts vals perm thr pf = Ok (lower, greater, gamma) ->
+  0 < gamma /\ gamma < 1 /\ lower <> [] /\ greater <> [] /\ ratio_clause gamma lower greater.
+Proof. exact (search_model_ratio_clause gamma0 dim pts vals perm thr pf lower greater gamma). Qed.
+Print Assumptions C16_search_ratio_clause.
+
+(* non-vacuity of the three search cases (ten 1-d observations 0..9 with values 0..9; the first instance was the
+   counterexample `C16_search_ratio_refuted` of the unrepaired view) *)
+Example C16_search_example :
+  let rows a n := map (fun k => [inject_Z (Z.of_nat k)]) (seq a n) in
+  sorting_perm_b search_witness_vals (seq 0 10) = true /\
+  count_true (violations [Some 100] search_witness_pf) = 0%nat /\
+  search_model (1 # 5) 1 search_witness_pts search_witness_vals (seq 0 10) [Some 100] search_witness_pf
+    = Ok (rows 0 3, rows 3 7, 1 # 5)%nat /\
+  count_true (violations [Some 8] search_witness_pf) = 2%nat /\
+  search_model (1 # 5) 1 search_witness_pts search_witness_vals (seq 0 10) [Some 8] search_witness_pf
+    = Ok (rows 0 8, rows 8 2, 2 # 10)%nat /\
+  search_model (1 # 5) 9 search_witness_pts search_witness_vals (seq 0 10) [Some 8] search_witness_pf
+    = Ok (rows 0 3, rows 3 7, 1 # 5)%nat /\
+  (exists l g r, expected_improvement (1 # 5) [1; 1 # 2; 1 # 4] (repeat (1 # 8) 7) = Some (l, g, r) /\ 0 < r /\ r <= 5).
+Proof. exact search_examples. Qed.
 
 (* Tie: a split case accepted by the in-Coq correspondence check (with the argsort permutation NumPy returned) shows the
    implementation's lower_points / greater_points to be, row by row, the points of a model split for which everything in
